@@ -240,3 +240,21 @@ def resolve_at(body, e, at):
     if len(alive) == 1:
         return strip(alive[0])
     return x
+
+
+def obs_rooted(f, e):
+    """does the expression denote the subscriber's own `observed_version` (not a local copy of it)?  Inside a closure / coroutine the
+    fields of parameter 1 are the captures, named after the captured place: `self.observed_version` (a disjoint capture of the field)
+    is the field, a capture called plainly `observed_version` is a captured local variable."""
+    for n in find_all(e, lambda y: y[0] == "field" and isinstance(y[2], str) and (y[2] == "observed_version" or y[2].endswith(".observed_version"))):
+        if n[2] != "observed_version":
+            return True
+        base = n[1]
+        while base[0] in ("deref", "ref"):
+            base = base[1]
+        if f.kind in ("closure", "coroutine") and base[0] == "param" and base[1] == 1:
+            continue
+        return True
+    return False
+
+
